@@ -190,7 +190,7 @@ impl Check for C20 {
     }
     fn cases(&self, tier: Tier) -> u64 {
         match tier {
-            Tier::Quick => 6_000,
+            Tier::Quick => 15_000,
             Tier::Thorough => 50_000,
         }
     }
